@@ -840,12 +840,17 @@ class TapeRecorder(object):
             try:
                 result = func(*args, **kwargs)
             except Exception as ex:
-                if interception_key is not None:
+                # Recording may have been discarded while the intercepted function was running
+                recording = self._active_recording
+                if interception_key is not None and recording is not None:
                     # Record exception marking it as exception so we know to throw on playback
-                    self._record_data(interception_key, {'exception': ex})
+                    recording[interception_key] = {'exception': ex}
                 raise
 
-        if interception_key is not None:
+        # Recording may have been discarded while the intercepted function was running
+        recording = self._active_recording
+        recording_parameters = self._active_recording_parameters
+        if interception_key is not None and recording is not None and recording_parameters is not None:
             try:
                 recorded_result = data_handler.prepare_input_for_recording(interception_key, result, args, kwargs) \
                     if data_handler else result
@@ -858,7 +863,7 @@ class TapeRecorder(object):
                 self.discard_recording()
                 return result
 
-            if self._active_recording_parameters.copy_data_on_intercepion:
+            if recording_parameters.copy_data_on_intercepion:
                 try:
                     recorded_result = pickle_copy(recorded_result)
                 except Exception as ex:
@@ -866,7 +871,7 @@ class TapeRecorder(object):
                         type(recorded_result), repr(ex)))
 
             # Record result
-            self._record_data(interception_key, {'value': recorded_result})
+            recording[interception_key] = {'value': recorded_result}
 
         return result
 
